@@ -3,7 +3,7 @@
    dispatch (multiepoch.go:handleRequest) and the gRPC stream-filter handling (grpc-server.go) with an explicit
    three-way outcome: every pointer dereference of a possibly-nil value and every Must* parser is a [Panic]
    site unless guarded. The flags select the pinned (unguarded) or the repaired (guarded) behaviour. *)
-From Coq Require Import List Bool ZArith NArith.
+From Coq Require Import List Bool ZArith NArith Lia.
 Import ListNotations.
 
 (* ---------- JSON values as the handlers see them after decoding into []any / map[string]any ---------- *)
@@ -171,7 +171,7 @@ Record grpc_filter := {
   g_vote : option bool; g_failed : option bool;
   g_accounts_wellformed : bool      (* every account string in include/exclude/required is valid base58 of 32 bytes *)
 }.
-Inductive grpc_outcome := GStreams | GInvalidArgument | GPanic (site : nat).
+Inductive grpc_outcome := GStreams | GInvalidArgument | GPanic (site : nat) | GSpins.   (* GSpins: the handler does not return *)
 (* flags_checked: optional vote/failed are tested for nil; accounts_checked: account strings parsed with an
    error-returning parser up front instead of MustPublicKeyFromBase58 *)
 Definition grpc_stream_txs (flags_checked accounts_checked : bool) (has_txs : bool) (f : option grpc_filter) : grpc_outcome :=
@@ -199,10 +199,97 @@ Lemma grpc_malformed_account_panics_when_unchecked :
   grpc_stream_txs true false true (Some {| g_vote := Some true; g_failed := Some true; g_accounts_wellformed := false |}) = GPanic 12.
 Proof. reflexivity. Qed.
 
+(* ---------- gRPC: StreamTransactions slot range (multiepoch-getSignaturesForAddress.go:
+   getGsfaReadersInEpochDescendingOrderForSlotRange) ----------
+   The request carries start_slot and an optional end_slot (default start+100), both uint64 and both taken as
+   they are. The helper collects the loaded epochs in [epoch(start), epoch(end)] into a slice. The pinned code
+   sizes that slice make([]*Epoch, 0, endEpoch-startEpoch+1) in uint64 arithmetic: an end before the start
+   wraps to ~2^64 and a far-away end asks for terabytes; makeslice panics (or the runtime dies out of memory)
+   once the byte size passes the allocator's limit. The repaired code sizes it by the number of LOADED epochs. *)
+Definition two64 : N := 18446744073709551616.
+Definition epoch_len : N := 432000.
+Definition max_stream : N := 100.
+Definition max_alloc_bytes : N := 281474976710656.     (* 2^48: runtime maxAlloc on linux/amd64 *)
+Definition epoch_of (slot : N) : N := slot / epoch_len.
+Definition end_slot (start : N) (e : option N) : N := match e with Some x => x | None => (start + max_stream) mod two64 end.
+Definition range_cap (bounded : bool) (loaded : N) (start : N) (e : option N) : N :=
+  if bounded then loaded
+  else (two64 + epoch_of (end_slot start e) - epoch_of start + 1) mod two64.
+Definition grpc_stream_range (bounded : bool) (loaded : N) (start : N) (e : option N) : grpc_outcome :=
+  if (range_cap bounded loaded start e * 8 <=? max_alloc_bytes)%N then GStreams else GPanic 13.
+
+Theorem grpc_range_never_panics loaded start e : (loaded <= 4294967296)%N -> forall s, grpc_stream_range true loaded start e <> GPanic s.
+Proof.
+  intros Hl s. unfold grpc_stream_range, range_cap.
+  destruct (N.leb_spec (loaded * 8) max_alloc_bytes) as [_|H]; [discriminate|].
+  exfalso. unfold max_alloc_bytes in H. lia.
+Qed.
+Lemma grpc_range_end_before_start_panics_when_unbounded :
+  grpc_stream_range false 1 (432000 * 5) (Some 0%N) = GPanic 13.
+Proof. vm_compute. reflexivity. Qed.
+Lemma grpc_range_far_end_panics_when_unbounded :
+  grpc_stream_range false 1 0 (Some 18446744073709551615%N) = GPanic 13.
+Proof. vm_compute. reflexivity. Qed.
+Lemma grpc_range_default_end_wraps_when_unbounded :
+  grpc_stream_range false 1 18446744073709551615 None = GPanic 13.
+Proof. vm_compute. reflexivity. Qed.
+
+(* After the per-account index queries (each under a deadline) the collected transactions are sent in slot order
+   (grpc-server.go:txBuffer.flush). The pinned flush walks EVERY slot number of the window [start, end] without
+   looking at the context; the repaired flush visits the slots that hold transactions. A handler that needs more
+   than 2^40 loop iterations is counted as not returning. *)
+Definition spin_budget : N := 1099511627776.
+Definition window (start : N) (e : option N) : N := let en := end_slot start e in if (start <=? en)%N then en - start + 1 else 0.
+Definition flush_iterations (sparse : bool) (held : N) (start : N) (e : option N) : N := if sparse then held else window start e.
+(* indexed: the filter names accounts and an address index covers the window *)
+Definition grpc_stream_window (bounded sparse : bool) (loaded held : N) (indexed : bool) (start : N) (e : option N) : grpc_outcome :=
+  match grpc_stream_range bounded loaded start e with
+  | GStreams => if indexed && negb (flush_iterations sparse held start e <=? spin_budget)%N then GSpins else GStreams
+  | o => o
+  end.
+Theorem grpc_window_always_returns loaded held indexed start e : (loaded <= 4294967296)%N -> (held <= spin_budget)%N ->
+  grpc_stream_window true true loaded held indexed start e = GStreams.
+Proof.
+  intros Hl Hh. unfold grpc_stream_window.
+  assert (R : grpc_stream_range true loaded start e = GStreams).
+  { unfold grpc_stream_range, range_cap. destruct (N.leb_spec (loaded * 8) max_alloc_bytes) as [_|H]; [reflexivity|].
+    exfalso. unfold max_alloc_bytes in H. lia. }
+  rewrite R. unfold flush_iterations. apply N.leb_le in Hh. rewrite Hh. destruct indexed; reflexivity.
+Qed.
+Lemma grpc_window_spins_when_walking_every_slot :
+  grpc_stream_window true false 1 0 true 0 (Some 36028797018963968%N) = GSpins.
+Proof. vm_compute. reflexivity. Qed.
+
+(* ---------- REST front: /api/v1/slot-to-cid/{slot} and /api/v1/sig-to-cid/{sig} (api.go) ---------- *)
+Inductive api_req :=
+| ApiNotGet
+| ApiSlot (parses : bool) (epoch_loaded : bool) (found : bool)     (* decimal uint64?; its epoch loaded?; slot in index? *)
+| ApiSig (parses : bool) (n_epochs : nat) (found : bool)           (* base58 of 64 bytes?; loaded epochs; some epoch has it? *)
+| ApiOther.
+Inductive api_reply := Status (code : N) | ApiPanic (site : nat).
+(* search_guarded: the epoch search answers "not found" for an empty epoch list instead of indexing it *)
+Definition api_handle (search_guarded : bool) (r : api_req) : api_reply :=
+  match r with
+  | ApiNotGet => Status 405
+  | ApiSlot false _ _ => Status 400
+  | ApiSlot true false _ => Status 404
+  | ApiSlot true true f => if f then Status 200 else Status 404
+  | ApiSig false _ _ => Status 400
+  | ApiSig true O _ => if search_guarded then Status 404 else ApiPanic 14
+  | ApiSig true (S _) f => if f then Status 200 else Status 404
+  | ApiOther => Status 404
+  end.
+Theorem api_never_panics r : forall s, api_handle true r <> ApiPanic s.
+Proof. intros s. destruct r as [|[] [] []|[] [|n] []|]; discriminate. Qed.
+Lemma api_unguarded_search_panics : api_handle false (ApiSig true 0 false) = ApiPanic 14.
+Proof. reflexivity. Qed.
+
 (* ---------- checker ---------- *)
 Inductive case :=
 | CHttp (epochs_loaded : bool) (m : method) (p : params) (observed : reply)
-| CGrpc (has_txs : bool) (f : option grpc_filter) (observed : grpc_outcome).
+| CGrpc (has_txs : bool) (f : option grpc_filter) (observed : grpc_outcome)
+| CRange (loaded : N) (held : N) (indexed : bool) (start : N) (e : option N) (observed : grpc_outcome)
+| CApi (r : api_req) (observed : api_reply).
 
 Definition reply_eqb (a b : reply) : bool :=
   match a, b with
@@ -211,11 +298,13 @@ Definition reply_eqb (a b : reply) : bool :=
   | _, _ => false
   end.
 Definition grpc_eqb (a b : grpc_outcome) : bool :=
-  match a, b with GStreams, GStreams | GInvalidArgument, GInvalidArgument => true | GPanic _, GPanic _ => true | _, _ => false end.
+  match a, b with GStreams, GStreams | GInvalidArgument, GInvalidArgument | GSpins, GSpins => true | GPanic _, GPanic _ => true | _, _ => false end.
 Definition case_ok (c : case) : bool :=
   match c with
   | CHttp e m p o => reply_eqb (handle true e m p) o
   | CGrpc h f o => grpc_eqb (grpc_stream_txs true true h f) o
+  | CRange l hd ix st e o => grpc_eqb (grpc_stream_window true true l hd ix st e) o
+  | CApi r o => match api_handle true r, o with Status a, Status b => N.eqb a b | ApiPanic _, ApiPanic _ => true | _, _ => false end
   end.
 Fixpoint bad_from (i : nat) (cs : list case) : list nat :=
   match cs with [] => [] | c :: t => if case_ok c then bad_from (S i) t else i :: bad_from (S i) t end.
